@@ -1430,9 +1430,14 @@ def x_executor(c):
 @ext("re.match", "re.fullmatch", "re.search", "re.compile")
 def x_re(c):
     pat, subj = c.arg(0, "pattern"), c.arg(1, "string")
+    facts = []
     if subj is not None:
         c.need_type(subj, frozenset(["str"]), "TypeError", "regex match on a non-string")
-    c.ret(None)
+        from .terms import is_const as _is_const
+
+        if pat is not None and _is_const(pat) and isinstance(pat[2], str):
+            facts.append(("type", subj, frozenset(["str"])))
+    c.ret(None, *facts)
 
 
 @ext("str.join", "str.lower", "str.isalnum", "str.encode", "bytes.hex", "bytes.decode", "dict.get", "dict.keys", "dict.items", "dict.values")
@@ -1602,9 +1607,14 @@ def m_regex(c):
     if compiled_pattern(c.w, c.recv) is None:
         c.rz("AttributeError", "method .%s() on a value that is not known to be a compiled pattern" % c.callee.split(":")[-1], [("nottype", c.recv, frozenset(["obj:re.Pattern"]))], pure=False)
     subj = c.arg(0, "string")
+    facts = []
     if subj is not None:
         c.need_type(subj, frozenset(["str"]), "TypeError", "regex match on a non-string")
-    c.ret(None)
+        if compiled_pattern(c.w, c.recv) is not None:
+            # a pattern compiled from str text refuses bytes-like subjects too: where the call
+            # returned (a match or None) the subject is a string
+            facts.append(("type", subj, frozenset(["str"])))
+    c.ret(None, *facts)
 
 
 @method("map")
